@@ -1,7 +1,9 @@
 (* C11: every trace of the model (with the real dial()) is accepted by the specification monitor
    of Model/DialerSpec.v. *)
 From Coq Require Import Lia ZifyBool.
-From CR Require Import Model.Dialer Model.DialerSpec gen.ExtDialer.
+From CR Require Import Model.Dialer.
+From CR Require Import Model.DialerSpec.
+From CR Require Import gen.ExtDialer.
 Local Open Scope Z_scope.
 
 Lemma crun_app : forall m a0 a b s,
